@@ -7,6 +7,12 @@ PROPS = [json.loads(l) for l in open(os.path.join(HOME, "properties.jsonl"))]
 
 META = {
     # id: (technique, level text, level_note, design_ref)
+    "C02": (
+        "hypothesis-generated programs of numpy operations over a tracked array and its views + enumerated route x target table, oracle = hash of a fresh array with the same bytes",
+        "Generated search: programs (<=14 steps) of hash reads, view creation, 46 mutating routes and read-only operations over a TrackedArray root and every view derived from it, with hash(x)==hash_fast(x.tobytes()) checked on drawn subsets after each step and on everything at the end; a complete enumeration of route x write target (root/view/view-of-view, 20 view chains) x which members were hashed before x the 6 dtype/shape kinds trimesh stores; the same routes applied to mesh.vertices/faces, path.vertices, colour arrays with the container hash compared to a freshly built object. Does not prove absence for routes not in the table.",
+        "Trusts the hash function; writes through plain-ndarray escapes (.view(np.ndarray), np.asarray, memoryview) and writes into the user array a TrackedArray was created from are outside the domain (see evidence assumptions).",
+        "DESIGN.md section 4 C02",
+    ),
     "C06": (
         "hypothesis generators aimed at bit-packing limits + exhaustive enumeration of short sequences, dict/tuple grouping oracle",
         "Generated search with an independent element-by-element oracle: Hypothesis integer/float row arrays built around the 2^15/2^20/2^31/2^63 packing limits for every column count and dtype, plus complete enumeration of blocks() over all sequences of length<=7 (quick) / <=9 (thorough) on a 3-letter alphabet x every option combination. Does not prove absence; the enumerated sub-domains are complete.",
